@@ -16,7 +16,8 @@ ID = 'C07'
 RULE = ('Histories: a duplicate-free candidate list (1-60 tuples of strings / ints / mixed arity) and a sequence of up to 40 '
         'batches, each with its own cap in 1..len+3 (caps change between steps); in "pipeline" histories the candidates are the '
         'feature-label pairs of a fixed column set and some batches go through mixed_rank_graph (heuristic Constant, target-only) '
-        'so the real call site and its in-place shuffle are exercised. After every batch the model (a Counter of selections) '
+        'so the real call site and its in-place shuffle are exercised; in "multi" histories two or three disjoint stable lists '
+        'share the sampler and every batch names the list it samples from (fairness is asserted per list). After every batch the model (a Counter of selections) '
         'and the invariants are checked. Exhaustive: every cap sequence of length <=5 (caps 1..len+1) over lists of 1-4 '
         'candidates. Non-trivial = >=3 batches, some cap < len and >=2 different caps; distinct = digest of the history.')
 ASSUMPTIONS = ['the oracle does not require a particular tie order among equally counted candidates',
@@ -34,6 +35,20 @@ def direct_history(draw):
     cands = draw(st.lists(st.lists(member(), min_size=arity, max_size=arity).map(tuple), min_size=n, max_size=n, unique=True))
     steps = draw(st.lists(st.integers(1, len(cands) + 3), min_size=1, max_size=40))
     return {'mode': 'direct', 'cands': [list(c) for c in cands], 'steps': [['d', c] for c in steps]}
+
+
+@st.composite
+def multi_history(draw):
+    """Two or three disjoint stable candidate lists share the sampler (as the feature-construction and the
+    scoring call sites do); every step names the list it samples from."""
+    nl = draw(st.integers(2, 3))
+    lists = []
+    for li in range(nl):
+        n = draw(st.integers(1, 25))
+        arity = draw(st.sampled_from([2, 3]))
+        lists.append([[f'L{li}m{i}'] + [f'x{j}' for j in range(arity - 1)] for i in range(n)])
+    steps = draw(st.lists(st.tuples(st.integers(0, nl - 1), st.integers(1, 8)).map(list), min_size=2, max_size=40))
+    return {'mode': 'multi', 'lists': lists, 'steps': steps}
 
 
 @st.composite
@@ -96,7 +111,50 @@ def check_history(cands, steps, cols=None):
                 raise Violation(f'{where}: reported count of {c} is {impl.get(c, 0)}, selected in {model[c]} batches', kind='C07/counter')
 
 
+def check_multi(lists, steps):
+    stubs.reset_globals()
+    models = [Counter() for _ in lists]
+    for si, (li, cap) in enumerate(steps):
+        cands = lists[li]
+        model = models[li]
+        before = {c: model[c] for c in cands}
+        args = stubs.make_args(heuristic='Constant', combination_number_upper_bound=int(cap))
+        got = cr.prior_combinations_sample(list(cands), args)
+        where = f'batch {si + 1} (list {li} of {len(lists)}, cap {cap})'
+        if len(got) != min(cap, len(cands)) or len(set(got)) != len(got) or any(g not in before for g in got):
+            raise Violation(f'{where}: returned {len(got)} combinations {got[:4]}, expected min(cap, len)={min(cap, len(cands))} '
+                            f'distinct candidates of that list', kind='C07/size')
+        chosen = set(got)
+        if chosen != set(cands):
+            mx_in = max(before[g] for g in chosen)
+            mn_out = min(before[c] for c in cands if c not in chosen)
+            if mx_in > mn_out:
+                raise Violation(f'{where}: selected a candidate evaluated {mx_in}x while one evaluated {mn_out}x was left out '
+                                f'(counts of this list before: {sorted(before.values())}; the sampler also serves '
+                                f'{len(lists) - 1} other candidate list(s))', kind='C07/least-evaluated')
+        for g in got:
+            model[g] += 1
+        counts = [model[c] for c in cands]
+        if max(counts) - min(counts) > 1:
+            raise Violation(f'{where}: evaluation counts of one stable list differ by more than one: {sorted(counts)}',
+                            kind='C07/fairness')
+        impl = dict(cr.GLOBAL_PRIOR_COMB_COUNTS)
+        for mi, (cl, mdl) in enumerate(zip(lists, models)):
+            for c in cl:
+                if impl.get(c, 0) != mdl[c]:
+                    raise Violation(f'{where}: reported count of {c} is {impl.get(c, 0)}, selected in {mdl[c]} batches',
+                                    kind='C07/counter')
+
+
 def oracle(case, rec):
+    if case['mode'] == 'multi':
+        lists = [[tuple(c) for c in cl] for cl in case['lists']]
+        steps = [(int(li), int(cap)) for li, cap in case['steps']]
+        used = {li for li, _ in steps}
+        rec.nt(len(used) >= 2 and len(steps) >= 3 and any(cap < len(lists[li]) for li, cap in steps), key=case)
+        rec.cls('multi-list')
+        check_multi(lists, steps)
+        return
     if case['mode'] == 'direct':
         cands = [tuple(c) for c in case['cands']]
         cols = None
@@ -147,7 +205,7 @@ def run(ctx):
     ctx.stats.per_kind['C07/exhaustive'] = {'evaluations': tot, 'nontrivial': totnt}
     ctx.extra['exhaustive_scope'] = f'all cap sequences of length <=5 (caps 1..len+1) over 1-4 candidates: {tot} histories'
     clauses = [
-        Clause('C07/history', lambda: st.one_of(direct_history(), pipeline_history()), oracle, quick=600, thorough=20000,
+        Clause('C07/history', lambda: st.one_of(direct_history(), pipeline_history(), multi_history()), oracle, quick=900, thorough=30000,
                quick_shards=6),
     ]
     drive(ctx, clauses)
